@@ -256,6 +256,17 @@ Definition local_is (n : xname) (l : string) : bool := String.eqb (snd n) l.
 Definition u_instant (v : string) : res instant :=
   match parse_utc v with Some s => Ok (s, 0%Z) | None => Err 400 end.
 
+(** encoding/xml refuses to recurse deeper than 10000 ([errUnmarshalDepth]):
+    [Decoder.unmarshal] checks its depth on entry; a struct field is unmarshalled
+    one level below its struct, the element of a slice field one level below the
+    slice (two below the struct), a pointer field costs nothing extra.  Every
+    [u_*] function below takes the depth [d] it runs at, as [Decoder.unmarshal]
+    does.  Any failure is a decoding error, i.e. a 400. *)
+Definition MAXD : N := 10000.
+Definition chk {A} (d : N) (r : res A) : res A := if N.leb MAXD d then Err 400 else r.
+(** a [*struct{}] field below a struct at depth [d] *)
+Definition flag_at {W} (d : N) (w : W) : res W := chk (d + 1) (Ok w).
+
 (** The attribute loop of [Decoder.unmarshal]: every attribute, in document
     order, is offered to the struct's attribute fields by local name.  Since
     the repair eba20a7 the decoder of a REPORT request reads its tokens through
@@ -275,15 +286,16 @@ Definition tm_set (l v : string) (w : w_text_match) : res w_text_match :=
     else Err 400
   else Ok w.
 
-Definition u_text_match (init : w_text_match) (t : xtree) : res w_text_match :=
+Definition u_text_match (d : N) (init : w_text_match) (t : xtree) : res w_text_match :=
   match t with
   | Elem n a k =>
+    chk d (
     if negb (name_eqb n (cn "text-match")) then Err 400 else
     match fold_attrs tm_set a init with
     | Ok w => Ok {| wtm_text := text_of k; wtm_collation := wtm_collation w; wtm_negate := wtm_negate w |}
     | Err c => Err c
     | Panic => Panic
-    end
+    end)
   | _ => Err 400
   end.
 
@@ -294,9 +306,9 @@ Definition tr_set (l v : string) (w : w_time_range) : res w_time_range :=
     match u_instant v with Ok i => Ok {| wtr_start := wtr_start w; wtr_end := Some i |} | Err c => Err c | Panic => Panic end
   else Ok w.
 
-Definition u_time_range (init : w_time_range) (t : xtree) : res w_time_range :=
+Definition u_time_range (d : N) (init : w_time_range) (t : xtree) : res w_time_range :=
   match t with
-  | Elem n a _ => if negb (name_eqb n (cn "time-range")) then Err 400 else fold_attrs tr_set a init
+  | Elem n a _ => chk d (if negb (name_eqb n (cn "time-range")) then Err 400 else fold_attrs tr_set a init)
   | _ => Err 400
   end.
 
@@ -307,9 +319,9 @@ Definition ex_set (l v : string) (w : w_expand) : res w_expand :=
     match u_instant v with Ok i => Ok {| wex_start := wex_start w; wex_end := i |} | Err c => Err c | Panic => Panic end
   else Ok w.
 
-Definition u_expand (init : w_expand) (t : xtree) : res w_expand :=
+Definition u_expand (d : N) (init : w_expand) (t : xtree) : res w_expand :=
   match t with
-  | Elem n a _ => if negb (name_eqb n (cn "expand")) then Err 400 else fold_attrs ex_set a init
+  | Elem n a _ => chk d (if negb (name_eqb n (cn "expand")) then Err 400 else fold_attrs ex_set a init)
   | _ => Err 400
   end.
 
@@ -317,13 +329,13 @@ Definition paf_set (l v : string) (w : w_param_filter) : res w_param_filter :=
   if String.eqb l "name" then Ok {| wpaf_name := v; wpaf_ind := wpaf_ind w; wpaf_tm := wpaf_tm w |}
   else Ok w.
 
-Definition paf_kid (w : w_param_filter) (kid : xtree) : res w_param_filter :=
+Definition paf_kid (d : N) (w : w_param_filter) (kid : xtree) : res w_param_filter :=
   match kid with
   | Elem n _ _ =>
     if local_is n "is-not-defined" then
-      Ok {| wpaf_name := wpaf_name w; wpaf_ind := true; wpaf_tm := wpaf_tm w |}
+      flag_at d {| wpaf_name := wpaf_name w; wpaf_ind := true; wpaf_tm := wpaf_tm w |}
     else if local_is n "text-match" then
-      match u_text_match (opt_default zero_wtm (wpaf_tm w)) kid with
+      match u_text_match (d + 1) (opt_default zero_wtm (wpaf_tm w)) kid with
       | Ok tm => Ok {| wpaf_name := wpaf_name w; wpaf_ind := wpaf_ind w; wpaf_tm := Some tm |}
       | Err c => Err c
       | Panic => Panic
@@ -332,15 +344,16 @@ Definition paf_kid (w : w_param_filter) (kid : xtree) : res w_param_filter :=
   | _ => Ok w
   end.
 
-Definition u_param_filter (init : w_param_filter) (t : xtree) : res w_param_filter :=
+Definition u_param_filter (d : N) (init : w_param_filter) (t : xtree) : res w_param_filter :=
   match t with
   | Elem n a k =>
+    chk d (
     if negb (name_eqb n (cn "param-filter")) then Err 400 else
     match fold_attrs paf_set a init with
-    | Ok w => fold_res paf_kid k w
+    | Ok w => fold_res (paf_kid d) k w
     | Err c => Err c
     | Panic => Panic
-    end
+    end)
   | _ => Err 400
   end.
 
@@ -349,25 +362,26 @@ Definition pf_set (l v : string) (w : w_prop_filter) : res w_prop_filter :=
     Ok {| wpf_name := v; wpf_ind := wpf_ind w; wpf_tr := wpf_tr w; wpf_tm := wpf_tm w; wpf_params := wpf_params w |}
   else Ok w.
 
-Definition pf_kid (w : w_prop_filter) (kid : xtree) : res w_prop_filter :=
+Definition pf_kid (d : N) (w : w_prop_filter) (kid : xtree) : res w_prop_filter :=
   match kid with
   | Elem n _ _ =>
     if local_is n "is-not-defined" then
-      Ok {| wpf_name := wpf_name w; wpf_ind := true; wpf_tr := wpf_tr w; wpf_tm := wpf_tm w; wpf_params := wpf_params w |}
+      flag_at d {| wpf_name := wpf_name w; wpf_ind := true; wpf_tr := wpf_tr w; wpf_tm := wpf_tm w; wpf_params := wpf_params w |}
     else if local_is n "time-range" then
-      match u_time_range (opt_default zero_wtr (wpf_tr w)) kid with
+      match u_time_range (d + 1) (opt_default zero_wtr (wpf_tr w)) kid with
       | Ok tr => Ok {| wpf_name := wpf_name w; wpf_ind := wpf_ind w; wpf_tr := Some tr; wpf_tm := wpf_tm w; wpf_params := wpf_params w |}
       | Err c => Err c
       | Panic => Panic
       end
     else if local_is n "text-match" then
-      match u_text_match (opt_default zero_wtm (wpf_tm w)) kid with
+      match u_text_match (d + 1) (opt_default zero_wtm (wpf_tm w)) kid with
       | Ok tm => Ok {| wpf_name := wpf_name w; wpf_ind := wpf_ind w; wpf_tr := wpf_tr w; wpf_tm := Some tm; wpf_params := wpf_params w |}
       | Err c => Err c
       | Panic => Panic
       end
     else if local_is n "param-filter" then
-      match u_param_filter zero_wpaf kid with
+      chk (d + 1)
+      match u_param_filter (d + 2) zero_wpaf kid with
       | Ok p => Ok {| wpf_name := wpf_name w; wpf_ind := wpf_ind w; wpf_tr := wpf_tr w; wpf_tm := wpf_tm w; wpf_params := wpf_params w ++ [p] |}
       | Err c => Err c
       | Panic => Panic
@@ -376,24 +390,26 @@ Definition pf_kid (w : w_prop_filter) (kid : xtree) : res w_prop_filter :=
   | _ => Ok w
   end.
 
-Definition u_prop_filter (init : w_prop_filter) (t : xtree) : res w_prop_filter :=
+Definition u_prop_filter (d : N) (init : w_prop_filter) (t : xtree) : res w_prop_filter :=
   match t with
   | Elem n a k =>
+    chk d (
     if negb (name_eqb n (cn "prop-filter")) then Err 400 else
     match fold_attrs pf_set a init with
-    | Ok w => fold_res pf_kid k w
+    | Ok w => fold_res (pf_kid d) k w
     | Err c => Err c
     | Panic => Panic
-    end
+    end)
   | _ => Err 400
   end.
 
 Definition wcf_set (l v : string) (w : w_comp_filter) : res w_comp_filter :=
   match w with WCF name ind tr pfs cfs => if String.eqb l "name" then Ok (WCF v ind tr pfs cfs) else Ok w end.
 
-Fixpoint u_comp_filter (init : w_comp_filter) (t : xtree) {struct t} : res w_comp_filter :=
+Fixpoint u_comp_filter (d : N) (init : w_comp_filter) (t : xtree) {struct t} : res w_comp_filter :=
   match t with
   | Elem n a k =>
+    chk d (
     if negb (name_eqb n (cn "comp-filter")) then Err 400 else
     match fold_attrs wcf_set a init with
     | Ok w0 =>
@@ -401,21 +417,23 @@ Fixpoint u_comp_filter (init : w_comp_filter) (t : xtree) {struct t} : res w_com
         match w with WCF name ind tr pfs cfs =>
         match kid with
         | Elem n' _ _ =>
-          if local_is n' "is-not-defined" then Ok (WCF name true tr pfs cfs)
+          if local_is n' "is-not-defined" then flag_at d (WCF name true tr pfs cfs)
           else if local_is n' "time-range" then
-            match u_time_range (opt_default zero_wtr tr) kid with
+            match u_time_range (d + 1) (opt_default zero_wtr tr) kid with
             | Ok tr' => Ok (WCF name ind (Some tr') pfs cfs)
             | Err c => Err c
             | Panic => Panic
             end
           else if local_is n' "prop-filter" then
-            match u_prop_filter zero_wpf kid with
+            chk (d + 1)
+            match u_prop_filter (d + 2) zero_wpf kid with
             | Ok p => Ok (WCF name ind tr (pfs ++ [p]) cfs)
             | Err c => Err c
             | Panic => Panic
             end
           else if local_is n' "comp-filter" then
-            match u_comp_filter zero_wcf kid with
+            chk (d + 1)
+            match u_comp_filter (d + 2) zero_wcf kid with
             | Ok c' => Ok (WCF name ind tr pfs (cfs ++ [c']))
             | Err c => Err c
             | Panic => Panic
@@ -425,25 +443,26 @@ Fixpoint u_comp_filter (init : w_comp_filter) (t : xtree) {struct t} : res w_com
         end end) k w0
     | Err c => Err c
     | Panic => Panic
-    end
+    end)
   | _ => Err 400
   end.
 
 (** [prop] of calendar-data (elements.go:217): only the name attribute. *)
 Definition cprop_set (l v : string) (w : string) : res string :=
   if String.eqb l "name" then Ok v else Ok w.
-Definition u_cprop (t : xtree) : res string :=
+Definition u_cprop (d : N) (t : xtree) : res string :=
   match t with
-  | Elem n a _ => if negb (name_eqb n (cn "prop")) then Err 400 else fold_attrs cprop_set a ""
+  | Elem n a _ => chk d (if negb (name_eqb n (cn "prop")) then Err 400 else fold_attrs cprop_set a "")
   | _ => Err 400
   end.
 
 Definition wcomp_set (l v : string) (w : w_comp) : res w_comp :=
   match w with WComp name ap ps ac cs => if String.eqb l "name" then Ok (WComp v ap ps ac cs) else Ok w end.
 
-Fixpoint u_comp (init : w_comp) (t : xtree) {struct t} : res w_comp :=
+Fixpoint u_comp (d : N) (init : w_comp) (t : xtree) {struct t} : res w_comp :=
   match t with
   | Elem n a k =>
+    chk d (
     if negb (name_eqb n (cn "comp")) then Err 400 else
     match fold_attrs wcomp_set a init with
     | Ok w0 =>
@@ -451,16 +470,18 @@ Fixpoint u_comp (init : w_comp) (t : xtree) {struct t} : res w_comp :=
         match w with WComp name ap ps ac cs =>
         match kid with
         | Elem n' _ _ =>
-          if local_is n' "allprop" then Ok (WComp name true ps ac cs)
+          if local_is n' "allprop" then flag_at d (WComp name true ps ac cs)
           else if local_is n' "prop" then
-            match u_cprop kid with
+            chk (d + 1)
+            match u_cprop (d + 2) kid with
             | Ok p => Ok (WComp name ap (ps ++ [p]) ac cs)
             | Err c => Err c
             | Panic => Panic
             end
-          else if local_is n' "allcomp" then Ok (WComp name ap ps true cs)
+          else if local_is n' "allcomp" then flag_at d (WComp name ap ps true cs)
           else if local_is n' "comp" then
-            match u_comp zero_wcomp kid with
+            chk (d + 1)
+            match u_comp (d + 2) zero_wcomp kid with
             | Ok c' => Ok (WComp name ap ps ac (cs ++ [c']))
             | Err c => Err c
             | Panic => Panic
@@ -470,21 +491,21 @@ Fixpoint u_comp (init : w_comp) (t : xtree) {struct t} : res w_comp :=
         end end) k w0
     | Err c => Err c
     | Panic => Panic
-    end
+    end)
   | _ => Err 400
   end.
 
-Definition wcd_kid (w : w_cal_data_req) (kid : xtree) : res w_cal_data_req :=
+Definition wcd_kid (d : N) (w : w_cal_data_req) (kid : xtree) : res w_cal_data_req :=
   match kid with
   | Elem n _ _ =>
     if local_is n "comp" then
-      match u_comp (opt_default zero_wcomp (wcd_comp w)) kid with
+      match u_comp (d + 1) (opt_default zero_wcomp (wcd_comp w)) kid with
       | Ok c => Ok {| wcd_comp := Some c; wcd_expand := wcd_expand w |}
       | Err c => Err c
       | Panic => Panic
       end
     else if local_is n "expand" then
-      match u_expand (opt_default zero_wex (wcd_expand w)) kid with
+      match u_expand (d + 1) (opt_default zero_wex (wcd_expand w)) kid with
       | Ok e => Ok {| wcd_comp := wcd_comp w; wcd_expand := Some e |}
       | Err c => Err c
       | Panic => Panic
@@ -493,54 +514,54 @@ Definition wcd_kid (w : w_cal_data_req) (kid : xtree) : res w_cal_data_req :=
   | _ => Ok w
   end.
 
-Definition u_cal_data_req (init : w_cal_data_req) (t : xtree) : res w_cal_data_req :=
+Definition u_cal_data_req (d : N) (init : w_cal_data_req) (t : xtree) : res w_cal_data_req :=
   match t with
-  | Elem n _ k => if negb (name_eqb n (cn "calendar-data")) then Err 400 else fold_res wcd_kid k init
+  | Elem n _ k => chk d (if negb (name_eqb n (cn "calendar-data")) then Err 400 else fold_res (wcd_kid d) k init)
   | _ => Err 400
   end.
 
 (** [internal.Prop] ([Raw []RawXMLValue `xml:",any"`]): every child element is
     captured, without its namespace declarations (RawXMLValue.UnmarshalXML),
     from the token stream [unqualifiedAttrReader] has already filtered. *)
-Definition dprop_kid (w : w_prop) (kid : xtree) : res w_prop :=
+Definition dprop_kid (d : N) (w : w_prop) (kid : xtree) : res w_prop :=
   match kid with
-  | Elem _ _ _ => Ok (w ++ [strip_decls (strip_foreign kid)])%list
+  | Elem _ _ _ => chk (d + 2) (Ok (w ++ [strip_decls (strip_foreign kid)])%list)
   | _ => Ok w
   end.
-Definition u_dprop (init : w_prop) (t : xtree) : res w_prop :=
+Definition u_dprop (d : N) (init : w_prop) (t : xtree) : res w_prop :=
   match t with
-  | Elem n _ k => if negb (name_eqb n (dn "prop")) then Err 400 else fold_res dprop_kid k init
+  | Elem n _ k => chk d (if negb (name_eqb n (dn "prop")) then Err 400 else fold_res (dprop_kid d) k init)
   | _ => Err 400
   end.
 
 (** [filter] (elements.go:89): CompFilter is a struct-typed field, a repeated
     comp-filter is merged into it. *)
-Definition filter_kid (w : w_comp_filter) (kid : xtree) : res w_comp_filter :=
+Definition filter_kid (d : N) (w : w_comp_filter) (kid : xtree) : res w_comp_filter :=
   match kid with
-  | Elem n _ _ => if local_is n "comp-filter" then u_comp_filter w kid else Ok w
+  | Elem n _ _ => if local_is n "comp-filter" then u_comp_filter (d + 1) w kid else Ok w
   | _ => Ok w
   end.
-Definition u_filter (init : w_comp_filter) (t : xtree) : res w_comp_filter :=
+Definition u_filter (d : N) (init : w_comp_filter) (t : xtree) : res w_comp_filter :=
   match t with
-  | Elem n _ k => if negb (name_eqb n (cn "filter")) then Err 400 else fold_res filter_kid k init
+  | Elem n _ k => chk d (if negb (name_eqb n (cn "filter")) then Err 400 else fold_res (filter_kid d) k init)
   | _ => Err 400
   end.
 
-Definition wq_kid (w : w_calendar_query) (kid : xtree) : res w_calendar_query :=
+Definition wq_kid (d : N) (w : w_calendar_query) (kid : xtree) : res w_calendar_query :=
   match kid with
   | Elem n _ _ =>
     if name_eqb n (dn "prop") then
-      match u_dprop (opt_default [] (wq_prop w)) kid with
+      match u_dprop (d + 1) (opt_default [] (wq_prop w)) kid with
       | Ok p => Ok {| wq_prop := Some p; wq_allprop := wq_allprop w; wq_propname := wq_propname w; wq_filter := wq_filter w |}
       | Err c => Err c
       | Panic => Panic
       end
     else if name_eqb n (dn "allprop") then
-      Ok {| wq_prop := wq_prop w; wq_allprop := true; wq_propname := wq_propname w; wq_filter := wq_filter w |}
+      flag_at d {| wq_prop := wq_prop w; wq_allprop := true; wq_propname := wq_propname w; wq_filter := wq_filter w |}
     else if name_eqb n (dn "propname") then
-      Ok {| wq_prop := wq_prop w; wq_allprop := wq_allprop w; wq_propname := true; wq_filter := wq_filter w |}
+      flag_at d {| wq_prop := wq_prop w; wq_allprop := wq_allprop w; wq_propname := true; wq_filter := wq_filter w |}
     else if local_is n "filter" then
-      match u_filter (wq_filter w) kid with
+      match u_filter (d + 1) (wq_filter w) kid with
       | Ok f => Ok {| wq_prop := wq_prop w; wq_allprop := wq_allprop w; wq_propname := wq_propname w; wq_filter := f |}
       | Err c => Err c
       | Panic => Panic
@@ -549,9 +570,9 @@ Definition wq_kid (w : w_calendar_query) (kid : xtree) : res w_calendar_query :=
   | _ => Ok w
   end.
 
-Definition u_calendar_query (init : w_calendar_query) (t : xtree) : res w_calendar_query :=
+Definition u_calendar_query (d : N) (init : w_calendar_query) (t : xtree) : res w_calendar_query :=
   match t with
-  | Elem n _ k => if negb (name_eqb n (cn "calendar-query")) then Err 400 else fold_res wq_kid k init
+  | Elem n _ k => chk d (if negb (name_eqb n (cn "calendar-query")) then Err 400 else fold_res (wq_kid d) k init)
   | _ => Err 400
   end.
 
@@ -571,27 +592,28 @@ Definition marshal_multiget (m : w_multiget) : xtree :=
      ++ map marshal_href (wm_hrefs m)).
 
 (** [internal.Href] as an element: a TextUnmarshaler, fed the direct chardata. *)
-Definition u_href (t : xtree) : res string :=
+Definition u_href (d : N) (t : xtree) : res string :=
   match t with
-  | Elem _ _ k => match href_parse (text_of k) with Some p => Ok p | None => Err 400 end
+  | Elem _ _ k => chk d (match href_parse (text_of k) with Some p => Ok p | None => Err 400 end)
   | _ => Err 400
   end.
 
-Definition wm_kid (w : w_multiget) (kid : xtree) : res w_multiget :=
+Definition wm_kid (d : N) (w : w_multiget) (kid : xtree) : res w_multiget :=
   match kid with
   | Elem n _ _ =>
     if name_eqb n (dn "prop") then
-      match u_dprop (opt_default [] (wm_prop w)) kid with
+      match u_dprop (d + 1) (opt_default [] (wm_prop w)) kid with
       | Ok p => Ok {| wm_prop := Some p; wm_allprop := wm_allprop w; wm_propname := wm_propname w; wm_hrefs := wm_hrefs w |}
       | Err c => Err c
       | Panic => Panic
       end
     else if name_eqb n (dn "allprop") then
-      Ok {| wm_prop := wm_prop w; wm_allprop := true; wm_propname := wm_propname w; wm_hrefs := wm_hrefs w |}
+      flag_at d {| wm_prop := wm_prop w; wm_allprop := true; wm_propname := wm_propname w; wm_hrefs := wm_hrefs w |}
     else if name_eqb n (dn "propname") then
-      Ok {| wm_prop := wm_prop w; wm_allprop := wm_allprop w; wm_propname := true; wm_hrefs := wm_hrefs w |}
+      flag_at d {| wm_prop := wm_prop w; wm_allprop := wm_allprop w; wm_propname := true; wm_hrefs := wm_hrefs w |}
     else if name_eqb n (dn "href") then
-      match u_href kid with
+      chk (d + 1)
+      match u_href (d + 2) kid with
       | Ok h => Ok {| wm_prop := wm_prop w; wm_allprop := wm_allprop w; wm_propname := wm_propname w; wm_hrefs := wm_hrefs w ++ [h] |}
       | Err c => Err c
       | Panic => Panic
@@ -600,9 +622,9 @@ Definition wm_kid (w : w_multiget) (kid : xtree) : res w_multiget :=
   | _ => Ok w
   end.
 
-Definition u_multiget (init : w_multiget) (t : xtree) : res w_multiget :=
+Definition u_multiget (d : N) (init : w_multiget) (t : xtree) : res w_multiget :=
   match t with
-  | Elem n _ k => if negb (name_eqb n (cn "calendar-multiget")) then Err 400 else fold_res wm_kid k init
+  | Elem n _ k => chk d (if negb (name_eqb n (cn "calendar-multiget")) then Err 400 else fold_res (wm_kid d) k init)
   | _ => Err 400
   end.
 
@@ -700,7 +722,8 @@ Definition decode_calendar_data_req (d : w_cal_data_req) : res comp_request :=
 
 (** [Prop.Decode(&calendarData)] followed by decodeCalendarDataReq, as both
     handleQuery and handleMultiget do: the first raw child named
-    CALDAV:calendar-data is unmarshalled; none = IsNotFound = zero value. *)
+    CALDAV:calendar-data is unmarshalled (by a fresh Decoder: depth 0 again);
+    none = IsNotFound = zero value. *)
 Definition is_caldata (t : xtree) : bool :=
   match t with Elem n _ _ => name_eqb n (cn "calendar-data") | _ => false end.
 
@@ -710,7 +733,7 @@ Definition decode_prop_caldata (p : option w_prop) : res comp_request :=
   | Some raws =>
     match (match find is_caldata raws with
            | None => Ok zero_wcd
-           | Some raw => match u_cal_data_req zero_wcd raw with Ok d => Ok d | Err _ => Err 400 | Panic => Panic end
+           | Some raw => match u_cal_data_req 0 zero_wcd raw with Ok d => Ok d | Err _ => Err 400 | Panic => Panic end
            end) with
     | Ok d => decode_calendar_data_req d
     | Err c => Err c
@@ -743,18 +766,19 @@ Section Href2.
 Variable href_parse : string -> option string.
 
 (** handleReport:91 with reportReq.UnmarshalXML's root switch (elements.go:250);
-    every decoding error is a 400 (internal.DecodeXMLRequest). *)
+    the report struct is decoded by a fresh Decoder over the filtered tokens
+    (depth 0); every decoding error is a 400 (internal.DecodeXMLRequest). *)
 Definition handle_report (path : string) (doc : xtree) : res backend_call :=
   match doc with
   | Elem n _ _ =>
     if name_eqb n (cn "calendar-query") then
-      match u_calendar_query zero_wq doc with
+      match u_calendar_query 0 zero_wq doc with
       | Ok q => handle_query path q
       | Err c => Err c
       | Panic => Panic
       end
     else if name_eqb n (cn "calendar-multiget") then
-      match u_multiget href_parse zero_wm doc with
+      match u_multiget href_parse 0 zero_wm doc with
       | Ok m => handle_multiget m
       | Err c => Err c
       | Panic => Panic
@@ -1287,6 +1311,37 @@ Definition backend_call_of (path : string) (r : request) : backend_call :=
   | RMultiget m => BMultiget (mg_paths m) (mg_cr m)
   end.
 
+(** ** 2d'. Nesting: how deep the decoder of encoding/xml has to go for the RFC
+    document of a request, relative to the depth of the element itself (a
+    [*struct{}] or pointer field: one level; a slice element: two).  The limit is
+    [MAXD]; the top comp-filter of a calendar-query is unmarshalled at depth 2,
+    the comp of calendar-data at depth 1 (Prop.Decode starts a fresh decoder). *)
+Definition maxl {A} (f : A -> N) (l : list A) : N := fold_right (fun x m => N.max (f x) m) 0%N l.
+
+Definition need_paf (p : param_filter) : N := if paf_ind p || is_some (paf_tm p) then 1%N else 0%N.
+Definition need_pf (p : prop_filter) : N :=
+  N.max (if pf_ind p || has_tr (pf_start p) (pf_end p) || is_some (pf_tm p) then 1 else 0)%N
+        (maxl (fun q => 2 + need_paf q)%N (pf_params p)).
+Fixpoint need_cf (f : comp_filter) : N :=
+  match f with
+  | CompFilter _ ind s e props comps =>
+    N.max (if ind || has_tr s e then 1 else 0)%N
+          (N.max (maxl (fun p => 2 + need_pf p)%N props) (maxl (fun c => 2 + need_cf c)%N comps))
+  end.
+Fixpoint need_comp (c : comp_request) : N :=
+  match c with
+  | CompReq _ ap ps ac comps _ =>
+    N.max (if ap || ac then 1 else 0)%N
+          (N.max (match ps with [] => 0 | _ => 2 end)%N (maxl (fun k => 2 + need_comp k)%N comps))
+  end.
+
+(** the request's document stays below the nesting limit *)
+Definition fits_request (r : request) : bool :=
+  match r with
+  | RQuery q => N.ltb (1 + need_comp (q_cr q)) MAXD && N.ltb (2 + need_cf (q_cf q)) MAXD
+  | RMultiget m => N.ltb (1 + need_comp (mg_cr m)) MAXD
+  end.
+
 (** ** 2e. Lexical variants of a document
 
     [lexvar t t']: [t'] differs from [t] only in ways XML, XML namespaces and
@@ -1447,7 +1502,7 @@ Definition client_agrees (path : string) (r : request) (body : xtree) (call : re
   && sb (res_call_eq_dec (canon_call (handle_report href_parse path body)) call).
 
 Definition client_spec_ok (path : string) (r : request) (body : xtree) (call : res backend_call) : bool :=
-  if expressible href_fmt href_parse r then
+  if expressible href_fmt href_parse r && fits_request r then
     sb (opt_request_eq_dec (rfc_read href_parse body) (Some (normalise r)))
     && sb (res_call_eq_dec call (Ok (backend_call_of path (normalise r))))
   else true.
@@ -1459,7 +1514,7 @@ Definition server_agrees (path : string) (doc : xtree) (call : res backend_call)
   sb (res_call_eq_dec (canon_call (handle_report href_parse path doc)) call).
 
 Definition server_in_domain (r : request) (doc : xtree) : bool :=
-  valid href_fmt href_parse r && variant_b (rfc_write href_fmt r) doc.
+  valid href_fmt href_parse r && fits_request r && variant_b (rfc_write href_fmt r) doc.
 
 Definition server_spec_ok (path : string) (r : request) (doc : xtree) (call : res backend_call) : bool :=
   if server_in_domain r doc
